@@ -1,6 +1,5 @@
 import copy
 import datetime
-import math
 from dataclasses import dataclass, field
 from typing import Union, get_args
 
@@ -136,32 +135,32 @@ class Metadata(object):
     def __lt__(self, other):
         """Required so metadata can be sorted. This allows cells sharing metadata to be grouped
         together when sorting lists of cells.
-        Comparison is based on fields in the canonical order
+        Comparison is based on fields in the canonical order. A missing (None) string
+        attribute sorts before every string and a missing limit after every number, so
+        that distinct metadata are never tied.
         """
         # noinspection DuplicatedCode
         return (
-            "" if self.risk_basis is None else self.risk_basis,
-            "" if self.country is None else self.country,
-            "" if self.currency is None else self.currency,
-            "" if self.reinsurance_basis is None else self.reinsurance_basis,
-            "" if self.loss_definition is None else self.loss_definition,
+            (self.risk_basis is not None, self.risk_basis or ""),
+            (self.country is not None, self.country or ""),
+            (self.currency is not None, self.currency or ""),
+            (self.reinsurance_basis is not None, self.reinsurance_basis or ""),
+            (self.loss_definition is not None, self.loss_definition or ""),
             (
-                math.inf
-                if self.per_occurrence_limit is None
-                else self.per_occurrence_limit
+                self.per_occurrence_limit is None,
+                self.per_occurrence_limit or 0,
             ),
             tuple(sorted(self.details.items())),
             tuple(sorted(self.loss_details.items())),
         ) < (
-            "" if other.risk_basis is None else other.risk_basis,
-            "" if other.country is None else other.country,
-            "" if other.currency is None else other.currency,
-            "" if other.reinsurance_basis is None else other.reinsurance_basis,
-            "" if other.loss_definition is None else other.loss_definition,
+            (other.risk_basis is not None, other.risk_basis or ""),
+            (other.country is not None, other.country or ""),
+            (other.currency is not None, other.currency or ""),
+            (other.reinsurance_basis is not None, other.reinsurance_basis or ""),
+            (other.loss_definition is not None, other.loss_definition or ""),
             (
-                math.inf
-                if other.per_occurrence_limit is None
-                else other.per_occurrence_limit
+                other.per_occurrence_limit is None,
+                other.per_occurrence_limit or 0,
             ),
             tuple(sorted(other.details.items())),
             tuple(sorted(other.loss_details.items())),
